@@ -108,7 +108,11 @@ func runC07(e *Env) {
 		runC07Transport(e)
 		return
 	case 3:
-		runC07Burst(e)
+		if e.P(3) == 2 {
+			runC07Reader(e)
+		} else {
+			runC07Burst(e)
+		}
 		return
 	}
 	var pl c07Plan
@@ -351,14 +355,24 @@ func runC07(e *Env) {
 func c07RoundTrip(e *Env, rig *Rig, last *Probe) {
 	wire0 := len(rig.Conn.Wire)
 	reads0 := len(last.Of("read"))
+	readerDone := false
 	e.Go("roundtrip", func() {
 		rig.Ch.Write([]byte{0x77, 0x78})
 		rig.Conn.Feed([]byte{0x55})
+		// (wait until the first message left the queue: a full non-blocking queue may refuse the second one)
+		for i := 0; i < 200 && len(rig.Conn.Wire) < wire0+2; i++ {
+			e.Step()
+		}
+		// a message that reaches the head as a plain io.Reader must still get through as well
+		rig.Ch.Write(&fragReader{b: []byte{0x79, 0x7A, 0x7B}})
+		readerDone = true
 	})
 	e.Sim.Horizon = e.Sim.Now() + time.Minute
 	e.Sim.Run()
-	if len(rig.Conn.Wire) != wire0+2 {
-		e.Violate("remains-usable", "write", "after the consumed fault a write did not reach the transport (%d bytes instead of 2)", len(rig.Conn.Wire)-wire0)
+	if !readerDone {
+		e.Violate("remains-usable", "reader-write-hangs", "after the consumed fault Channel.Write of an io.Reader message never returned although the channel is still active")
+	} else if len(rig.Conn.Wire) != wire0+5 {
+		e.Violate("remains-usable", "write", "after the consumed fault two writes (2 + 3 bytes) did not reach the transport (%d bytes instead of 5)", len(rig.Conn.Wire)-wire0)
 	}
 	got := false
 	for _, d := range last.Of("read") {
@@ -462,7 +476,10 @@ func runC07Transport(e *Env) {
 //
 //go:norace
 func runC07Burst(e *Env) {
-	q := []int{8, 2, 4}[e.P(3)]
+	q := []int{8, 2, 4, 64, 16, 24}[e.P(6)]
+	if e.P(4) == 3 {
+		q = e.PRange(1, 40)
+	}
 	cc := ChanCfg{Async: true, Q: q, Until: true}
 	what := e.P(2) // 0 write, 1 flush
 	k := 1 + e.P(4)
@@ -523,6 +540,79 @@ func runC07Burst(e *Env) {
 	for _, ev := range rig.Conn.Log {
 		if ev.Kind == simnet.EvWritev && len(ev.Bufs) >= q/2+1 {
 			e.Count("full_sender_batches", 1)
+		}
+	}
+	rig.Teardown()
+}
+
+// panicReader delivers a few bytes and then fails inside Read: by panicking, by returning an error, or by being
+// refused downstream (full non-blocking queue).
+type panicReader struct {
+	n    int
+	mode int
+	err  error
+}
+
+func (r *panicReader) Read(p []byte) (int, error) {
+	r.n++
+	if r.n == 1 {
+		p[0], p[1] = 0x41, 0x42
+		return 2, nil
+	}
+	if r.mode == 0 {
+		panic(r.err)
+	}
+	return 0, r.err
+}
+
+// runC07Reader: the fault happens inside the streaming of a reader-typed message (Channel.Write -> head ->
+// ReadFrom): it must be routed as an exception like any other, and if it is consumed the channel - including
+// further reader-typed messages - stays usable.
+//
+//go:norace
+func runC07Reader(e *Env) {
+	cc := e.drawChan(true, []int{2, 8})
+	if cc.Async {
+		cc.Until = true
+	}
+	swallow := e.P(3) != 2
+	mode := e.P(2)
+	ferr := errors.New("injected reader failure")
+	e.Describe("channel=%s reader-typed message whose second Read %s; exception handler swallows=%v", cc, []string{"panics", "returns an error"}[mode], swallow)
+	e.Count("point:reader-message/"+[]string{"panic", "error"}[mode], 1)
+	mid := &Probe{env: e, Name: "mid", Outbound: true, Swallow: swallow}
+	rig := e.NewRig(cc, false, mid)
+	last := rig.Probe
+	var escaped interface{}
+	e.Go("main", func() {
+		rig.Serve()
+		defer func() {
+			if r := recover(); r != nil {
+				escaped = r
+			}
+		}()
+		e.Step()
+		rig.Ch.Write(&panicReader{mode: mode, err: ferr})
+	})
+	e.RunToEnd()
+	if escaped != nil {
+		e.Violate("no-escape", "reader-message", "a panic escaped into the caller of Channel.Write: %v", escaped)
+	}
+	n := 0
+	for _, d := range mid.Of("exception") {
+		if d.Err == ferr || errors.Is(d.Err, ferr) {
+			n++
+		}
+	}
+	if n != 1 {
+		e.Violate("routed-once-in-order", "reader-message", "the failure inside the reader-typed message was delivered to the exception handler %d times", n)
+	}
+	e.Count("handler_panics_fired", 1)
+	if swallow {
+		if len(last.Of("inactive")) != 0 || !rig.Ch.IsActive() {
+			e.Violate("consumed-stays-open", "reader-message", "the exception was consumed but the channel was closed")
+		} else {
+			c07RoundTrip(e, rig, last)
 		}
 	}
 	rig.Teardown()
